@@ -17,6 +17,7 @@
  *     late  rank that enters the collective 200 simulated microseconds after the others (-1: nobody)
  *   sync      a hand-written point-to-point barrier separates the cases (used by the driver to attribute a crash)
  *   rev       run on a communicator with reversed rank order instead of MPI_COMM_WORLD
+ *   flip=<i>  oracle self-test: the last rank flips one bit of the expected image of the receive buffer of case <i>
  *
  * Every rank builds its send and receive buffers between two 64-byte guard zones, filled with 0xA5, builds the expected
  * image of every buffer from the definition of the collective (every rank can compute every other rank's contribution),
@@ -738,8 +739,10 @@ int main(int argc, char** argv)
 {
   MPI_Init(&argc, &argv);
   setvbuf(stdout, NULL, _IOLBF, 0);
-  int sync = 0, rev = 0;
+  int sync = 0, rev = 0, flip = -1;
   for (int i = 2; i < argc; i++) {
+    if (!strncmp(argv[i], "flip=", 5))
+      flip = atoi(argv[i] + 5);
     if (!strcmp(argv[i], "sync"))
       sync = 1;
     if (!strcmp(argv[i], "rev"))
@@ -801,6 +804,12 @@ int main(int argc, char** argv)
       prepare(&c, &S[0], c.vseed);
       if (two)
         prepare(&c, &S[1], c.vseed + 77);
+      if (flip == c.idx && me == np - 1 && S[0].r.raw)
+        for (long p = GUARD; p < GUARD + S[0].r.bytes; p++)
+          if (S[0].r.sig[p]) {
+            S[0].r.exp[p] ^= 0x10;
+            break;
+          }
       if (c.late == me)
         usleep(200);
       start(&c, &S[0]);
